@@ -112,9 +112,11 @@ Definition nchk_ev (c : ncfg) (base : Z) (s : ncst) (e : sev) : ncst * list ncla
            ++ cl_if (negb (en =? zmax_list 0 tss + ntimeout c)) NEndNotLatestPlusTimeout
            ++ cl_if (negb (gaps_ok (ntimeout c) (zsort tss))) NGapNotSplit
            ++ cl_if (negb (st =? zmin_list 0 tss)) NStartNotEarliest
-           (* no other session of this key is closer than the timeout *)
-           ++ cl_if (existsb (fun f => (f_key f =? key) &&
-                                  existsb (fun a => existsb (fun b => Z.abs (a - b) <? ntimeout c) tss) (map kts (f_rows f)))
+           (* no other session of this key is closer than the timeout; only rows that were on time count: a late row
+              absorbed by a fired session keeps that session's window_id (C02), so it does not extend it *)
+           ++ cl_if (let ont := fun l => map kts (filter (fun r => krow_in r (m_ontime s)) l) in
+                     existsb (fun f => (f_key f =? key) &&
+                                  existsb (fun a => existsb (fun b => Z.abs (a - b) <? ntimeout c) (ont rows)) (ont (f_rows f)))
                              (m_fired s)) NSplitWithinTimeout)
       end
   end.
